@@ -21,7 +21,9 @@ class C18(framework.PropertyCheck):
             if k % 5 == 4:
                 c['history'] = True      # another capture has been loaded before and unloaded again
             if k % 5 == 2:
-                c['failed_first'] = ['missing', 'ext'][k % 2]     # an attempt to load a file that does not exist / is of no known kind came first
+                c['failed_first'] = ['missing', 'ext'][k % 2]
+            if k % 5 == 1:
+                c['unload_first'] = True        # an id that was never loaded has been "unloaded" before     # an attempt to load a file that does not exist / is of no known kind came first
             yield c
         if tier == 'thorough':
             import itertools
@@ -50,6 +52,8 @@ class C18(framework.PropertyCheck):
             steps = [('loadcsv', 'zz', 'Time [s],other\n0.5,1\n0.75,0\n1.5,1\n'), steps[0], ('unload', 'zz'), steps[1]]
         if case.get('failed_first'):
             steps = [('loadfail', 'q9', case['failed_first'])] + steps
+        if case.get('unload_first'):
+            steps = [('unload', 'nosuch9')] + steps
         q = '(list INDEX TS ' + ' '.join(f'(get {qs(n)})' for n in den['signals']) + ')'
         for _ in den['timestamps']:
             steps.append(('eval', 'eorg', q))
@@ -60,7 +64,7 @@ class C18(framework.PropertyCheck):
         den = gen_trace.denote_csv(case['cf'])
         names = den['signals']
         n = len(den['timestamps'])
-        if case.get('failed_first'):
+        if case.get('failed_first') or case.get('unload_first'):
             iobs = iobs[1:]
         if case.get('history'):
             if len(iobs) < 3 or iobs[0] != ('ok',) or iobs[2] != ('ok',):
